@@ -33,22 +33,26 @@ for s in seeds:
 
 blines = []
 for f in benign_files:
-    blines += [l.rstrip("\n") for l in open(f, errors="replace") if re.match(r"benign\S*: C01=", l)]
-bres = {}
+    blines += [l.rstrip("\n") for l in open(f, errors="replace") if re.match(r"benign\S*: C\d\d=", l)]
+bmerged = {}
 for l in blines:
-    name = l.split(":")[0]
-    bres[name] = l          # the last line per seed (a runner prints a short and a full line)
+    # later files override earlier ones check by check (a regression may re-run only the checks that changed)
+    name, rest = l.split(":", 1)
+    for tok in rest.split():
+        c, _, st = tok.partition("=")
+        bmerged.setdefault(name, {})[c] = st
+bres = {n: n + ": " + " ".join(f"{c}={st}" for c, st in sorted(d.items())) for n, d in bmerged.items()}
 noisy = [n for n, l in bres.items() if "EXIT" in l or "VIOL" in l.split(":", 1)[1].replace("/V0", "")]
 benign = sorted(s for s in os.listdir(os.path.join(ROOT, "seeded"))
                 if os.path.isdir(os.path.join(ROOT, "seeded", s)) and s.startswith("benign"))
 
 out = ["# Seeded changes: last regression (quick tier; bin/run_seeded and bin/run_benign_cross via bin/run_par)", ""]
-out.append(f"{len(seeds)} breaking changes (round 1, `orig-*` reversed repairs, `r2-*` ... `r6-*`): "
+out.append(f"{len(seeds)} breaking changes (round 1, `orig-*` reversed repairs, `r2-*` ... `r8-*`; lines of checks not re-run in the last regression are carried over from the previous one): "
            f"{len(seeds) - len(missed) - len(notrun)} detected (exit 1 with a VIOLATION line) by the check of the "
            f"property they were written against; missed: {missed or 'none'}; not run: {notrun or 'none'}; "
            f"checks that ended in a harness error on a seeded tree: {exit3 or 'none'}.")
 out.append("")
-out.append(f"{len(benign)} behaviour-preserving changes (`benign-*`, `benign2-*`, `benign3-*`), every check against "
+out.append(f"{len(benign)} behaviour-preserving changes (`benign-*` ... `benign4-*`), every check against "
            f"every change: {len(bres)} run, not quiet: {sorted(noisy) or 'none'}.")
 out += ["", "```"]
 for s in seeds:
